@@ -361,13 +361,37 @@ func firstLines(s string, n int) string {
 // SolveAll runs the solvers over all obligations with a worker pool.
 func (w *World) SolveAll(obs []*Obligation, cfg *SolveConfig, workers int) {
 	var wg sync.WaitGroup
+	var mu sync.Mutex
+	failed := map[string]bool{}
 	ch := make(chan int)
 	for i := 0; i < workers; i++ {
 		wg.Add(1)
 		go func() {
 			defer wg.Done()
 			for idx := range ch {
-				w.Solve(obs[idx], cfg, idx)
+				ob := obs[idx]
+				// an obligation that already failed on another path is not re-attempted
+				// (bounds the time of a failing run; the violation is reported once per name)
+				mu.Lock()
+				skip := failed[ob.Name] && ob.Result == ""
+				tooMany := len(failed) >= 12 && ob.Result == "" && ob.Kind != "cover" && ob.Kind != "canary"
+				mu.Unlock()
+				if skip || tooMany {
+					ob.Result = "undecided"
+					ob.Solver = "not attempted"
+					if skip {
+						ob.Output = "same obligation already failed on another path"
+					} else {
+						ob.Output = "more than 12 distinct obligations already failed; remaining obligations not attempted"
+					}
+					continue
+				}
+				w.Solve(ob, cfg, idx)
+				if ob.Result != "discharged" && ob.Kind != "cover" && ob.Kind != "canary" {
+					mu.Lock()
+					failed[ob.Name] = true
+					mu.Unlock()
+				}
 			}
 		}()
 	}
